@@ -111,15 +111,22 @@ def case_to_coq(c):
                                       coq_bool(i["http"]), exp, coq_list([c_sample(s) for s in c.get("samples") or []]))
 
 
-def shard_text(cases, tab):
+REPAIRED_TREE = os.environ.get("VERIF_C14_MODEL", "") == "repaired"
+
+
+def shard_text(cases, tab, fcases=()):
     body = ";\n  ".join(case_to_coq(c) for c in cases)
     rows = ";\n  ".join("TabRow %s %s %s %s %s %s" % (coq_str(r["t_name"]), coq_str(r["t_peer"]), coq_str(r["a_name"]),
                                                      coq_str(r["a_peer"]), coq_bool(r["match"]), coq_N(r["t_wild"]))
                         for r in tab)
+    fbody = ";\n  ".join("FCase %s (%s)" % (coq_bool(shadow), case_to_coq(c)) for shadow, c in fcases)
+    mm = "mismatches_repaired_tree" if REPAIRED_TREE else "mismatches"
     return ("From Verif Require Import Base.Prelude RBAC.Model Run.C14.\n"
             "Definition cases : list case := [\n  %s\n].\n"
             "Definition tab : list tabrow := [\n  %s\n].\n"
-            "Definition M := Eval vm_compute in (mismatches cases ++ tab_mismatches tab)%%list.\nPrint M.\n" % (body, rows))
+            "Definition fcases : list fcase := [\n  %s\n].\n"
+            "Definition M := Eval vm_compute in (%s cases ++ tab_mismatches tab ++ finding_mismatches fcases)%%list.\nPrint M.\n"
+            % (body, rows, fbody, mm))
 
 
 def ixn_brief(x):
@@ -166,6 +173,7 @@ def run(ctx):
     shape = collections.Counter()
     coq_cases, with_findings, problems, impl_errs = [], [], [], []
     total = evals = oracle_cases = disagreements = n_samples = 0
+    by_cause = collections.Counter()
     distinct = set()
     for line in open(out):
         c = json.loads(line)
@@ -186,6 +194,8 @@ def run(ctx):
             shape["mixed-destinations"] += 1
         evals += c["evals"]
         disagreements += c["disagreements"]
+        for k, v in (c.get("disagreements_by_cause") or {}).items():
+            by_cause[k or "unexplained-by-counterfactuals"] += v
         if c["oracle"] != "skipped":
             oracle_cases += 1
         if c["to_coq"]:
@@ -200,37 +210,71 @@ def run(ctx):
         if c["impl_err"]:
             impl_errs.append(c)
 
-    # ---- model vs implementation, inside Coq ----
-    per = PER_SHARD if ctx.tier == "thorough" else max(1, -(-len(coq_cases) // 6))   # quick: one round of 6 shards
-    shards = [coq_cases[k:k + per] for k in range(0, len(coq_cases), per)]
-    texts = [shard_text(s, tab if k == 0 else []) for k, s in enumerate(shards)]
-    phases["parse_and_write_cases"] = round(time.time() - t1, 1)
-    t1 = time.time()
-    res = vlib.coq_run_shards(PROP, texts, timeout=1500, jobs=6)
-    phases["coq_shards"] = round(time.time() - t1, 1)
-    vlib.log("C14 phases: %s" % phases)
-    mism, tab_fail = [], []
-    for s, (okk, idx, raw) in zip(shards, res):
-        if not okk:
-            ctx.violation({"kind": "case-file-failed", "log": raw}, found_input=False)
-            continue
-        for j in idx:
-            if j >= 1000000:
-                tab_fail.append(tab[j - 1000000])
-            else:
-                mism.append(s[j])
-
-    # ---- direct oracle on the implementation ----
+    # ---- direct oracle: match shrunk findings against the open known findings ----
     new_fail = []
     known_hits = collections.Counter()
+    masked = []           # (finding, known entry) excused by an open known finding: must be reproduced by the model
     for c in with_findings:
         for f in c["findings"]:
             kf = vlib.match_known(PROP, f["signature"])
             if kf:
-                known_hits[kf["what"]] += 1
+                known_hits[kf["signature"]["kind"]] += 1
                 ctx.known(kf, kf["what"])
+                masked.append((f, kf))
             else:
                 new_fail.append((c, f))
+    # distinct shrunk replays of masked findings, as cases for the Coq model
+    fcases, seen_f, unreplayable = [], set(), 0
+    for f, kf in masked:
+        if not f.get("coq"):
+            unreplayable += 1
+            continue
+        key = json.dumps([f["coq"]["input"], f["coq"]["samples"][0]["tls"], f["coq"]["samples"][0]["xfcc"],
+                          f["coq"]["samples"][0]["path"], f["coq"]["samples"][0]["headers"]], sort_keys=True)
+        if key in seen_f:
+            continue
+        seen_f.add(key)
+        fc = {"input": f["coq"]["input"], "impl": f["coq"]["impl"], "impl_err": "", "samples": f["coq"]["samples"]}
+        fcases.append((kf["signature"]["kind"] == "precedence-removal", fc, f))
+    fcap = 400 if ctx.tier == "thorough" else 150
+    fcases = fcases[:fcap]
+
+    # ---- model vs implementation, inside Coq ----
+    per = PER_SHARD if ctx.tier == "thorough" else max(1, -(-len(coq_cases) // 6))   # quick: one round of 6 shards
+    shards = [coq_cases[k:k + per] for k in range(0, len(coq_cases), per)]
+    nsh = max(1, len(shards))
+    fper = -(-len(fcases) // nsh) if fcases else 0
+    fshards = [fcases[k * fper:(k + 1) * fper] for k in range(nsh)] if fcases else [[] for _ in range(nsh)]
+    if not shards:
+        shards = [[]]
+    texts = [shard_text(sh, tab if k == 0 else [], [(a, b) for a, b, _ in fshards[k]]) for k, sh in enumerate(shards)]
+    phases["parse_and_write_cases"] = round(time.time() - t1, 1)
+    t1 = time.time()
+    res = vlib.coq_run_shards(PROP, texts, timeout=1500, jobs=4 if ctx.tier == "thorough" else 6)
+    phases["coq_shards"] = round(time.time() - t1, 1)
+    vlib.log("C14 phases: %s" % phases)
+    mism, tab_fail, finding_fail = [], [], []
+    for k, (sh, (okk, idx, raw)) in enumerate(zip(shards, res)):
+        if not okk:
+            ctx.violation({"kind": "case-file-failed", "log": raw}, found_input=False)
+            continue
+        for j in idx:
+            if j >= 2000000:
+                finding_fail.append(fshards[k][j - 2000000][2])
+            elif j >= 1000000:
+                tab_fail.append(tab[j - 1000000])
+            else:
+                mism.append(sh[j])
+
+    # ---- verdicts ----
+    # a disagreement excused by a known finding that the model does NOT reproduce (or, for the
+    # superset defect, that the model of the repaired translator does not remove) is not that finding
+    for f in finding_fail[:3]:
+        ctx.violation({"kind": "oracle-finding-not-reproduced-by-model", "signature": f["signature"], "replay": f["replay"],
+                       "explanation": "the shrunk disagreement matches an open known finding by signature, but the Coq model "
+                                      "does not show the same two verdicts at that point, or translate_repaired does not give "
+                                      "the precedence verdict there: a different defect hides behind the signature",
+                       "replay_cmd": "build/bin/rbac -replay <this file>"})
     seen_sig, distinct_fail = set(), []
     for c, f in new_fail:
         k = json.dumps(f["signature"], sort_keys=True)
@@ -270,6 +314,11 @@ def run(ctx):
         "oracle_cases": oracle_cases,
         "oracle_evaluations": evals,
         "oracle_disagreements": disagreements,
+        "oracle_disagreements_by_cause": dict(by_cause),
+        "masked_findings_replayed_in_coq": len(fcases),
+        "masked_findings_not_reproduced_by_model": len(finding_fail),
+        "masked_findings_without_coq_case": unreplayable,
+        "model_compared": "translate_repaired (VERIF_C14_MODEL=repaired)" if REPAIRED_TREE else "translate",
         "oracle_failing_classes_known": dict(known_hits),
         "oracle_failing_classes_unknown": len(seen_sig),
         "harness_self_check_failures": len(problems),
